@@ -31,30 +31,6 @@ theorem getV_append_none (acc : List Val) (p : Nat) (j : Nat) :
     rw [this, List.getElem?_replicate]
     split <;> rfl
 
-theorem rowValues_eq (cells : List RCell) : ∀ (acc : List Val) (p : Nat),
-    RowEq (rowValues cells acc p) (acc ++ List.replicate p Val.none ++ expandRow cells) := by
-  induction cells with
-  | nil =>
-    intro acc p j
-    simp only [rowValues, expandRow, List.flatMap_nil, List.append_nil]
-    exact (getV_append_none acc p j).symm
-  | cons c r ih =>
-    intro acc p j
-    obtain ⟨rep, v⟩ := c
-    simp only [rowValues]
-    by_cases hv : (v == Val.none) = true
-    · have hv' : v = Val.none := by simpa using hv
-      rw [if_pos hv, ih acc (p + rep) j]
-      have : acc ++ List.replicate (p + rep) Val.none ++ expandRow r
-          = acc ++ List.replicate p Val.none ++ expandRow ((rep, v) :: r) := by
-        simp only [expandRow, List.flatMap_cons, hv', replicate_add', List.append_assoc]
-      rw [this]
-    · rw [if_neg hv, ih _ 0 j]
-      simp [expandRow]
-
-theorem rowEq_nil_getV {e : List Val} (h : RowEq [] e) (j : Nat) : getV e j = Val.none := by
-  rw [← h j]; simp [getV]
-
 theorem cellAt_append_left {A B : VGrid} {i : Nat} (h : i < A.length) (j : Nat) : cellAt (A ++ B) i j = cellAt A i j := by
   unfold cellAt; rw [List.getElem?_append_left h]
 
@@ -99,40 +75,6 @@ theorem gridEq_append_empty (A B : VGrid) (hB : ∀ row ∈ B, ∀ j, getV row j
     cases hb : B[i - A.length]? with
     | none => rfl
     | some row => exact (hB row (List.mem_of_getElem? hb) j).symm
-
-theorem rawRows_eq (rows : List RRow) : ∀ (acc : VGrid) (p : Nat),
-    GridEq (rawRows rows acc p) (acc ++ List.replicate p [] ++ expand rows) := by
-  induction rows with
-  | nil =>
-    intro acc p
-    simp only [rawRows, expand, List.flatMap_nil, List.append_nil]
-    apply gridEq_append_empty
-    intro row hrow j
-    have := List.eq_of_mem_replicate hrow
-    subst this
-    simp [getV]
-  | cons r rs ih =>
-    intro acc p
-    obtain ⟨rep, cells⟩ := r
-    have hrv : RowEq (rowValues cells [] 0) (expandRow cells) := by
-      have := rowValues_eq cells [] 0
-      simpa using this
-    simp only [rawRows]
-    have hexp : expand ((rep, cells) :: rs) = List.replicate rep (expandRow cells) ++ expand rs := by
-      simp [expand]
-    by_cases he : (rowValues cells [] 0).isEmpty = true
-    · rw [if_pos he]
-      have hnil : rowValues cells [] 0 = [] := by simpa using he
-      rw [hnil] at hrv
-      apply gridEq_trans (ih acc (p + rep))
-      rw [hexp, replicate_add']
-      have := gridEq_mid (acc ++ List.replicate p []) (expand rs) rep hrv
-      simpa [List.append_assoc] using this
-    · rw [if_neg he]
-      apply gridEq_trans (ih _ 0)
-      rw [hexp]
-      have := gridEq_mid (acc ++ List.replicate p []) (expand rs) rep hrv
-      simpa [List.append_assoc] using this
 
 theorem mem_takeWhile' {α : Type} {p : α → Bool} {l : List α} {a : α} (h : a ∈ l.takeWhile p) : p a = true := by
   induction l with
@@ -189,18 +131,17 @@ theorem getV_padRow (w : Nat) (row : List Val) (j : Nat) : getV (padRow w row) j
   · have : (List.range w)[j]? = none := by simp; omega
     simp [this, h]
 
-/-- ODS: every cell of the returned table is the source cell at the same position; beyond the
-    returned table the source sheet is empty -/
-theorem sheetData_cells (rows : List RRow) : GridEq (sheetData rows) (expand rows) := by
+/-- trimming and padding of `raw_rows` -/
+def sheetOf (raw : VGrid) : VGrid := (trimRows raw).map (padRow (lastDataCol (trimRows raw)))
+
+theorem sheetData_eq (C : Caps) (rows : List RRow) : sheetData C rows = sheetOf (rawRows C rows) := rfl
+
+/-- trimming and padding change no cell: every cell of `raw_rows` keeps its place -/
+theorem sheetOf_cells (raw0 : VGrid) : GridEq (sheetOf raw0) raw0 := by
   intro i j
-  have hraw : GridEq (trimRows (rawRows rows [] 0)) (expand rows) := by
-    apply gridEq_trans (trimRows_eq _)
-    have := rawRows_eq rows [] 0
-    simpa using this
-  rw [← hraw i j]
-  unfold sheetData
-  simp only
-  generalize trimRows (rawRows rows [] 0) = raw
+  rw [← trimRows_eq raw0 i j]
+  unfold sheetOf
+  generalize trimRows raw0 = raw
   unfold cellAt
   rw [List.getElem?_map]
   cases hr : raw[i]? with
@@ -212,16 +153,13 @@ theorem sheetData_cells (rows : List RRow) : GridEq (sheetData rows) (expand row
     · rename_i h
       exact (beyond_lastDataCol raw row (List.mem_of_getElem? hr) j (by omega)).symm
 
-/-- the returned table is rectangular -/
-theorem sheetData_rect (rows : List RRow) :
-    ∃ w, ∀ row ∈ sheetData rows, row.length = w := by
-  refine ⟨lastDataCol (trimRows (rawRows rows [] 0)), ?_⟩
+theorem sheetOf_rect (raw0 : VGrid) : ∃ w, ∀ row ∈ sheetOf raw0, row.length = w := by
+  refine ⟨lastDataCol (trimRows raw0), ?_⟩
   intro row hrow
-  unfold sheetData at hrow
+  unfold sheetOf at hrow
   simp only [List.mem_map] at hrow
   obtain ⟨r, _, rfl⟩ := hrow
   simp [padRow]
-
 /-- a row with data keeps its data when padded / cut to `lastDataCol` of a grid it belongs to -/
 theorem padRow_keeps_data (G : VGrid) (row : List Val) (hrow : row ∈ G) (h : row.all (· == Val.none) = false) :
     (padRow (lastDataCol G) row).all (· == Val.none) = false := by
@@ -258,11 +196,10 @@ theorem padRow_keeps_data (G : VGrid) (row : List Val) (hrow : row ∈ G) (h : r
     exact List.mem_of_getElem? hk
 
 /-- tight below: the last row of the returned table holds data -/
-theorem sheetData_last_row (rows : List RRow) (row : List Val) (h : (sheetData rows).getLast? = some row) :
+theorem sheetOf_last_row (raw0 : VGrid) (row : List Val) (h : (sheetOf raw0).getLast? = some row) :
     row.all (· == Val.none) = false := by
-  unfold sheetData at h
-  simp only at h
-  generalize hraw : trimRows (rawRows rows [] 0) = raw at h
+  unfold sheetOf at h
+  generalize hraw : trimRows raw0 = raw at h
   rw [List.getLast?_map] at h
   cases hl : raw.getLast? with
   | none => rw [hl] at h; simp at h
@@ -272,18 +209,17 @@ theorem sheetData_last_row (rows : List RRow) (row : List Val) (h : (sheetData r
     rw [← h]
     have hmem : r0 ∈ raw := List.mem_of_getLast? hl
     apply padRow_keeps_data raw r0 hmem
-    have hd := List.head?_dropWhile_not (fun row : List Val => row.all (· == Val.none)) (rawRows rows [] 0).reverse
-    have : raw.getLast? = ((rawRows rows [] 0).reverse.dropWhile (fun row => row.all (· == Val.none))).head? := by
+    have hd := List.head?_dropWhile_not (fun row : List Val => row.all (· == Val.none)) raw0.reverse
+    have : raw.getLast? = (raw0.reverse.dropWhile (fun row => row.all (· == Val.none))).head? := by
       rw [← hraw]; unfold trimRows; rw [List.getLast?_reverse]
     rw [← this, hl] at hd
     exact hd
 
 /-- tight on the right: some row holds data in the last column (so the width is the last column with data) -/
-theorem sheetData_last_col (rows : List RRow) (w : Nat) (hw : w > 0) (hall : ∀ row ∈ sheetData rows, row.length = w)
-    (hne : sheetData rows ≠ []) : ∃ row ∈ sheetData rows, getV row (w - 1) ≠ Val.none := by
-  unfold sheetData at hall hne ⊢
-  simp only at hall hne ⊢
-  generalize trimRows (rawRows rows [] 0) = raw at hall hne ⊢
+theorem sheetOf_last_col (raw0 : VGrid) (w : Nat) (hw : w > 0) (hall : ∀ row ∈ sheetOf raw0, row.length = w)
+    (hne : sheetOf raw0 ≠ []) : ∃ row ∈ sheetOf raw0, getV row (w - 1) ≠ Val.none := by
+  unfold sheetOf at hall hne ⊢
+  generalize trimRows raw0 = raw at hall hne ⊢
   have hw' : lastDataCol raw = w := by
     cases raw with
     | nil => simp at hne
@@ -315,5 +251,160 @@ theorem sheetData_last_col (rows : List RRow) (w : Nat) (hw : w > 0) (hall : ∀
   unfold getV
   rw [hx]
   simpa using hp
+
+/-! ## the capped runs -/
+
+def allNone (l : List Val) : Bool := l.all (· == Val.none)
+
+/-- no collapsed run of empty cells has a value behind it in its row -/
+def noGapRow (C : Caps) : List RCell → Bool
+  | [] => true
+  | c :: r => (if c.2 == Val.none && c.1 > C.cell then allNone (expandRow r) else true) && noGapRow C r
+
+/-- … and no collapsed run of empty rows has a row with data below it (a row element repeated 0 times
+    contributes nothing, whatever its cells) -/
+def noGapRows (C : Caps) : List RRow → Bool
+  | [] => true
+  | r :: rs => (r.1 == 0 || noGapRow C r.2)
+      && (if r.1 > C.row && allNone (rowValues C r.2) then (expand rs).all allNone else true)
+      && noGapRows C rs
+
+theorem allNone_append (a b : List Val) : allNone (a ++ b) = (allNone a && allNone b) := by simp [allNone]
+theorem allNone_replicate_none (n : Nat) : allNone (List.replicate n Val.none) = true := by simp [allNone]
+
+theorem allNone_cellPiece (C : Caps) (c : RCell) : allNone (cellPiece C c) = allNone (List.replicate c.1 c.2) := by
+  unfold cellPiece
+  split
+  · rename_i h
+    simp only [Bool.and_eq_true, beq_iff_eq] at h
+    rw [h.1, allNone_replicate_none]; simp [allNone]
+  · rfl
+
+theorem allNone_rowValues (C : Caps) (cells : List RCell) : allNone (rowValues C cells) = allNone (expandRow cells) := by
+  induction cells with
+  | nil => rfl
+  | cons c r ih =>
+    simp only [rowValues, expandRow, List.flatMap_cons] at ih ⊢
+    rw [allNone_append, allNone_append, allNone_cellPiece, ih]
+
+theorem rowEq_of_allNone {a b : List Val} (ha : allNone a = true) (hb : allNone b = true) : RowEq a b :=
+  fun j => (all_none_getV ha j).trans (all_none_getV hb j).symm
+
+theorem rowEq_append_left (p : List Val) {a b : List Val} (h : RowEq a b) : RowEq (p ++ a) (p ++ b) := by
+  intro j
+  unfold getV
+  rw [List.getElem?_append, List.getElem?_append]
+  split
+  · rfl
+  · exact h (j - p.length)
+
+theorem rowValues_eq (C : Caps) (cells : List RCell) (h : noGapRow C cells = true) :
+    RowEq (rowValues C cells) (expandRow cells) := by
+  induction cells with
+  | nil => intro j; rfl
+  | cons c r ih =>
+    simp only [noGapRow, Bool.and_eq_true] at h
+    by_cases hc : (c.2 == Val.none && c.1 > C.cell) = true
+    · have hr : allNone (expandRow r) = true := by
+        have := h.1; have hc2 := hc; rw [Bool.and_eq_true] at hc2; rw [if_pos hc2] at this; exact this
+      have hv : c.2 = Val.none := by simp only [Bool.and_eq_true, beq_iff_eq] at hc; exact hc.1
+      apply rowEq_of_allNone
+      · rw [allNone_rowValues]
+        simp only [expandRow, List.flatMap_cons] at hr ⊢
+        rw [allNone_append, hr, hv, allNone_replicate_none]; rfl
+      · simp only [expandRow, List.flatMap_cons] at hr ⊢
+        rw [allNone_append, hr, hv, allNone_replicate_none]; rfl
+    · have e : cellPiece C c = List.replicate c.1 c.2 := by unfold cellPiece; rw [if_neg hc]
+      simp only [rowValues, expandRow, List.flatMap_cons]
+      rw [e]
+      exact rowEq_append_left _ (ih h.2)
+
+theorem cellAt_allNone {G : VGrid} (h : G.all allNone = true) (i j : Nat) : cellAt G i j = Val.none := by
+  unfold cellAt
+  cases hr : G[i]? with
+  | none => rfl
+  | some row => exact all_none_getV (List.all_eq_true.mp h row (List.mem_of_getElem? hr)) j
+
+theorem gridEq_app (n : Nat) {a b : List Val} (h : RowEq a b) {X Y : VGrid} (hxy : GridEq X Y) :
+    GridEq (List.replicate n a ++ X) (List.replicate n b ++ Y) := by
+  intro i j
+  by_cases h2 : i < n
+  · rw [cellAt_append_left (by simpa using h2), cellAt_append_left (by simpa using h2)]
+    unfold cellAt
+    simp only [List.getElem?_replicate, h2, if_true]
+    exact h j
+  · rw [cellAt_append_right (by simp; omega), cellAt_append_right (by simp; omega)]
+    simp only [List.length_replicate]
+    exact hxy _ j
+
+theorem expand_cons (r : RRow) (rs : List RRow) : expand (r :: rs) = List.replicate r.1 (expandRow r.2) ++ expand rs := by
+  simp [expand]
+
+theorem rawRows_cons (C : Caps) (r : RRow) (rs : List RRow) : rawRows C (r :: rs) = rowPiece C r ++ rawRows C rs := by
+  simp [rawRows]
+
+/-- rows below which the source holds no data give `raw_rows` without data -/
+theorem rawRows_allNone (C : Caps) (rows : List RRow) (h : (expand rows).all allNone = true) :
+    (rawRows C rows).all allNone = true := by
+  induction rows with
+  | nil => rfl
+  | cons r rs ih =>
+    rw [expand_cons, List.all_append, Bool.and_eq_true] at h
+    rw [rawRows_cons, List.all_append, ih h.2, Bool.and_true]
+    unfold rowPiece
+    simp only
+    split
+    · rename_i hc
+      simp only [Bool.and_eq_true] at hc
+      simpa [allNone] using hc.2
+    · have h1 := h.1
+      rw [List.all_replicate] at h1 ⊢
+      by_cases h0 : r.1 = 0
+      · simp [h0]
+      · simp only [h0, if_false] at h1 ⊢
+        rw [allNone_rowValues]; exact h1
+
+theorem rawRows_eq (C : Caps) (rows : List RRow) (h : noGapRows C rows = true) : GridEq (rawRows C rows) (expand rows) := by
+  induction rows with
+  | nil => intro i j; rfl
+  | cons r rs ih =>
+    simp only [noGapRows, Bool.and_eq_true] at h
+    obtain ⟨⟨h1, h2⟩, h3⟩ := h
+    rw [rawRows_cons, expand_cons]
+    by_cases hc : (r.1 > C.row && allNone (rowValues C r.2)) = true
+    · have hbelow : (expand rs).all allNone = true := by
+        have hc2 := hc; rw [Bool.and_eq_true] at hc2; rw [if_pos hc2] at h2; exact h2
+      have hrv : allNone (rowValues C r.2) = true := by simp only [Bool.and_eq_true] at hc; exact hc.2
+      intro i j
+      rw [cellAt_allNone, cellAt_allNone]
+      · rw [List.all_append, hbelow, Bool.and_true, List.all_replicate]
+        split
+        · rfl
+        · rw [← allNone_rowValues C]; exact hrv
+      · rw [List.all_append, rawRows_allNone C rs hbelow, Bool.and_true]
+        unfold rowPiece
+        simp only
+        have hc' : (r.1 > C.row && (rowValues C r.2).all (· == Val.none)) = true := hc
+        rw [if_pos hc']
+        simpa using hrv
+    · have e : rowPiece C r = List.replicate r.1 (rowValues C r.2) := by
+        unfold rowPiece
+        simp only
+        have hc' : ¬ (r.1 > C.row && (rowValues C r.2).all (· == Val.none)) = true := hc
+        rw [if_neg hc']
+      rw [e]
+      by_cases h0 : r.1 = 0
+      · rw [h0]; exact ih h3
+      · have h1' : noGapRow C r.2 = true := by
+          rcases (Bool.or_eq_true _ _).mp h1 with hz | hz
+          · exact absurd (by simpa using hz) h0
+          · exact hz
+        exact gridEq_app r.1 (rowValues_eq C r.2 h1') (ih h3)
+
+/-- ODS: when no collapsed run of empty cells / rows has data behind it, every cell of the returned
+    table is the source cell at the same position, and beyond the returned table the source is empty -/
+theorem sheetData_cells (C : Caps) (rows : List RRow) (h : noGapRows C rows = true) :
+    GridEq (sheetData C rows) (expand rows) :=
+  gridEq_trans (sheetOf_cells _) (rawRows_eq C rows h)
 
 end S2T.Tables.Ods
